@@ -119,9 +119,13 @@ def check(P, rep):
             okf = bool(fresh) and mg(g, [e.node], (), edges(fresh))[0]
             dep = [d for d in deploys if core(d.address) == ('self',) and same(core(d.salt), idt)]
             okd = bool(dep) and mg(g, [e.node], [d.node for d in dep])[0]
-            rep.check(okf or okd, 'C11.R3', '%s:registry-write-once' % en,
-                      'registration must-guarded by absence of the same id or by a deploy at with_address(self, same id)', esite(g, e),
-                      'fresh-guard=%s deploy-at-id=%s' % (okf, okd), witness(g, e.node))
+            # the deploy trap (T4) protects only ids that can have been taken by an earlier DEPLOY: ids derived locally under the
+            # interchain-token-salt prefix are domain-separated from canonical ids; an id taken from a message is arbitrary and may be a
+            # canonical (LockUnlock) id whose deploy address is free, so it needs the explicit absence guard
+            local_id = is_token_id(idt, lambda s_: (hashed_tuple(s_) or [None])[0] is not None and const_str(hashed_tuple(s_)[0]) == 'interchain-token-salt')
+            rep.check(okf or (okd and local_id), 'C11.R3', '%s:registry-write-once' % en,
+                      'registration must-guarded by absence of the same id, or (for a locally derived interchain id only) by a deploy at with_address(self, same id)',
+                      esite(g, e), 'fresh-guard=%s deploy-at-id=%s locally-derived-id=%s' % (okf, okd, local_id), witness(g, e.node))
             f = fields_of(core(e.val)) or {}
             if dep:
                 tv = core(f.get('token_address', ('u',)))
